@@ -400,7 +400,8 @@ pub fn switch(
         if new_shape.starts_with(&[1])
             && let Some(sh) = (args.iter().skip(1))
                 .map(|v| &v.shape)
-                .find(|s| !s.starts_with(&[1]))
+                // A scalar is repeated for every row and has no row count of its own
+                .find(|s| !s.is_empty() && !s.starts_with(&[1]))
         {
             *new_shape.row_count_mut() = sh.row_count();
         }
